@@ -1,10 +1,615 @@
 /-
-  C15 — property theorems for the async transition system (`Ptk.Model.C15`).
+  C15 — property theorems: asynchronous completions, validation and suggestions are never
+  applied stale.
+
+  The model (`Ptk.Model.C15`) is a labelled transition system: user actions of the `Buffer`
+  API interleaved, in any order and without bound, with the segments of the completer /
+  validator / auto-suggest coroutines between their awaits.  `Reachable` = every state any
+  such interleaving can produce from a fresh buffer.  The invariant and its preservation are
+  in `Ptk.Props.C15Inv`; here the property is read off it.
+
+  All theorems about reachable states assume `cfg.fixD1 = true`, i.e. the code as it is in
+  /repo since commit 279c220; `unfixed_dangles` shows the statement is false without it.
+  User code is arbitrary: `env.comp`, `env.valid`, `env.sugg` are universally quantified.
 -/
-import Ptk.Model.C15
+import Ptk.Props.C15Inv
 namespace Ptk.C15
 open Ptk.Py
 
-theorem init_no_menu (d : Doc) : (init d).cs = none := rfl
+variable {cfg : Config} {env : Env}
+
+/-- states reachable from a fresh buffer by any finite interleaving of user actions and
+    coroutine segments -/
+def Reachable (cfg : Config) (env : Env) (s : St) : Prop :=
+  ∃ (d : Doc) (as : List Act), d.WF ∧ s = run cfg env (init d) as
+
+/-- **All interleavings, unbounded**: every reachable state satisfies the invariant. -/
+theorem reachable_inv (hfix : cfg.fixD1 = true) {s : St} (h : Reachable cfg env s) : Inv cfg env s := by
+  obtain ⟨d, as, hd, rfl⟩ := h
+  exact run_inv (init_inv d hd) hfix as
+
+theorem reachable_step {s : St} (h : Reachable cfg env s) (a : Act) :
+    Reachable cfg env (step cfg env s a).1 := by
+  obtain ⟨d, as, hd, rfl⟩ := h
+  refine ⟨d, as ++ [a], hd, ?_⟩
+  simp [run, List.foldl_append]
+
+/-! ### the completion menu describes the text -/
+
+/-- Python's `before[:start]` for `start < 0` drops the last `-start` characters. -/
+theorem sliceTo_neg (l : Text) (i : Int) (hi : i < 0) : sliceTo l i = l.take (l.length - (-i).toNat) := by
+  unfold sliceTo slice normIdx
+  simp [hi]
+  congr 1; omega
+
+/-- what "the completion applied to the original document" is: the text before the cursor
+    minus its last `-start_position` characters, then the completion, then the text after. -/
+theorem applyCompl_spec (d : Doc) (c : Completion) (hc : c.start ≤ 0) :
+    applyCompl d c =
+      ⟨d.before.take (d.before.length - (-c.start).toNat) ++ c.text ++ d.after,
+       (d.before.take (d.before.length - (-c.start).toNat)).length + c.text.length⟩ := by
+  unfold applyCompl
+  by_cases h0 : c.start = 0
+  · simp [h0]
+  · have : c.start < 0 := by omega
+    simp [h0, sliceTo_neg _ _ this]
+
+/-- **menu_text_consistent**: whenever a completion menu exists, the buffer's text and cursor
+    are exactly what the menu's state computes (`new_text_and_position`). -/
+theorem menu_text_consistent (hfix : cfg.fixD1 = true) {s : St} (h : Reachable cfg env s)
+    {st : CState} (hcs : s.cs = some st) : st.newDoc = some ⟨s.text, s.cur⟩ :=
+  ((reachable_inv hfix h).buf.cs_ok st hcs).text_eq
+
+/-- … the original text and cursor when nothing is selected, -/
+theorem menu_original (hfix : cfg.fixD1 = true) {s : St} (h : Reachable cfg env s)
+    {st : CState} (hcs : s.cs = some st) (hi : st.index = none) :
+    s.text = st.orig.text ∧ s.cur = st.orig.cur := by
+  have := menu_text_consistent hfix h hcs
+  unfold CState.newDoc at this
+  rw [hi] at this
+  simp at this
+  rw [this]; exact ⟨rfl, rfl⟩
+
+/-- … and the original with the selected completion applied otherwise; in particular the
+    selected completion exists (the index never dangles). -/
+theorem menu_selected (hfix : cfg.fixD1 = true) {s : St} (h : Reachable cfg env s)
+    {st : CState} (hcs : s.cs = some st) {i : Nat} (hi : st.index = some i) :
+    ∃ c, st.comps[i]? = some c ∧ (⟨s.text, s.cur⟩ : Doc) = applyCompl st.orig c := by
+  have := menu_text_consistent hfix h hcs
+  unfold CState.newDoc at this
+  rw [hi] at this
+  simp only at this
+  split at this
+  · rename_i c hc
+    exact ⟨c, hc, by simpa using this.symm⟩
+  · cases this
+
+theorem index_valid (hfix : cfg.fixD1 = true) {s : St} (h : Reachable cfg env s)
+    {st : CState} (hcs : s.cs = some st) {i : Nat} (hi : st.index = some i) : i < st.comps.length :=
+  index_lt_of_newDoc (menu_text_consistent hfix h hcs) hi
+
+/-- no user-level call raises (IndexError / AssertionError) in a reachable state -/
+theorem no_exception (hfix : cfg.fixD1 = true) {s : St} (h : Reachable cfg env s) (a : Act) :
+    (step cfg env s a).2 = false := by
+  have hb := (reachable_inv hfix h).buf
+  cases a with
+  | next c dw => exact (completeNext_nav hb c dw).noexc
+  | prev c dw => exact (completePrevious_nav hb c dw).noexc
+  | cancel => exact (cancel_nav hb).noexc
+  | tab => exact (tab_nav hb).noexc
+  | apply c => exact (apply_nav hb c).noexc
+  | _ => rfl
+
+/-! ### completions, verdict and suggestion are never stale -/
+
+/-- **completions_for_orig**: the completions of a published menu are a prefix of what the
+    completer produces for the menu's original document (the stream may still be loading), or
+    the `new_completion_from_position` image of such a list after its common part was inserted. -/
+theorem completions_for_orig (hfix : cfg.fixD1 = true) {s : St} (h : Reachable cfg env s)
+    {st : CState} (hcs : s.cs = some st) : Provenance env st :=
+  ((reachable_inv hfix h).buf.cs_ok st hcs).prov
+
+/-- a loading completer whose state object is still the buffer's (`proceed()`): the menu is
+    for the document the completer was called with and holds exactly the first `i` results -/
+theorem loading_link (hfix : cfg.fixD1 = true) {s : St} (h : Reachable cfg env s)
+    {m : Mode} {doc : Doc} {i tok : Nat} (ht : Task.cLoad m doc i tok ∈ s.tasks)
+    {st : CState} (hcs : s.cs = some st) (htok : st.token = tok) :
+    st.orig = doc ∧ st.comps = (env.comp doc).take i :=
+  ((reachable_inv hfix h).task m doc i tok ht).2 st hcs htok
+
+/-- **verdict_fresh**: a displayed verdict was computed by the validator from a document with
+    exactly the current text (the cursor may have moved since: `_cursor_position_changed`
+    keeps the verdict). -/
+theorem verdict_fresh (hfix : cfg.fixD1 = true) {s : St} (h : Reachable cfg env s) :
+    (s.vs = .valid → s.verr = none ∧
+        (cfg.hasV = false ∨ ∃ c, c ≤ s.text.length ∧ env.valid ⟨s.text, c⟩ = none)) ∧
+    (s.vs = .invalid → ∃ c msg, c ≤ s.text.length ∧ env.valid ⟨s.text, c⟩ = some msg ∧ s.verr = some msg) :=
+  ⟨(reachable_inv hfix h).buf.valid_fresh, (reachable_inv hfix h).buf.invalid_fresh⟩
+
+/-- **suggestion_fresh** -/
+theorem suggestion_fresh (hfix : cfg.fixD1 = true) {s : St} (h : Reachable cfg env s)
+    {t : Text} (ht : s.sugg = some t) : ∃ c, c ≤ s.text.length ∧ env.sugg ⟨s.text, c⟩ = some t :=
+  (reachable_inv hfix h).buf.sugg_fresh t ht
+
+/-! ### at most one coroutine of each kind -/
+
+/-- **one_at_a_time**: per kind, the number of coroutines past the `running` check is the
+    flag: at most one, and the flag is never stuck. -/
+theorem one_at_a_time (hfix : cfg.fixD1 = true) {s : St} (h : Reachable cfg env s) :
+    cntC s.tasks ≤ 1 ∧ cntV s.tasks ≤ 1 ∧ cntS s.tasks ≤ 1 ∧
+    (s.runC = true ↔ cntC s.tasks = 1) ∧ (s.runV = true ↔ cntV s.tasks = 1) ∧
+    (s.runS = true ↔ cntS s.tasks = 1) := by
+  have f := (reachable_inv hfix h).flags
+  have hc := f.c; have hv := f.v; have hs := f.s
+  cases hrc : s.runC <;> cases hrv : s.runV <;> cases hrs : s.runS <;>
+    simp [hrc, hrv, hrs, b2n] at hc hv hs ⊢ <;> omega
+
+
+/-! ### cycling through the menu, cancelling -/
+
+/-- index selected by `complete_next()` -/
+def nxtIdx (n : Nat) : Option Nat → Option Nat
+  | none => some 0
+  | some i => if i + 1 = n then none else some (i + 1)
+
+/-- index selected by `complete_previous()` -/
+def prvIdx (n : Nat) : Option Nat → Option Nat
+  | none => some (n - 1)
+  | some i => if i = 0 then none else some (i - 1)
+
+theorem goToIndex_of_ne {st : CState} (hne : st.comps ≠ []) (idx : Option Nat) :
+    st.goToIndex idx = { st with index := idx } := by
+  unfold CState.goToIndex
+  cases hc : st.comps with
+  | nil => exact absurd hc hne
+  | cons _ _ => simp
+
+/-- one `complete_next()` on a good state with a non-empty menu -/
+theorem next_spec {s : St} (hb : BufOK cfg env s) {st : CState} (hcs : s.cs = some st)
+    (hne : st.comps ≠ []) :
+    BufOK cfg env (completeNext cfg s 1 false).1 ∧
+    (completeNext cfg s 1 false).1.cs = some { st with index := nxtIdx st.comps.length st.index } := by
+  have hn : 0 < st.comps.length := List.length_pos_iff.mpr hne
+  have hst := hb.cs_ok st hcs
+  refine ⟨(completeNext_nav hb 1 false).buf, ?_⟩
+  unfold completeNext
+  rw [hcs]
+  dsimp only
+  cases hi : st.index with
+  | none =>
+    dsimp only
+    rw [(goTo_spec hb hcs (some 0) (by intro j hj; cases hj; exact hn)).2.2.2, goToIndex_of_ne hne]
+    rfl
+  | some i =>
+    have hlt := index_lt_of_newDoc hst.text_eq hi
+    dsimp only
+    split
+    · rename_i he
+      simp only [Bool.false_eq_true, if_false]
+      rw [(goTo_spec hb hcs none (by intro j hj; cases hj)).2.2.2, goToIndex_of_ne hne]
+      simp only [nxtIdx]
+      rw [if_pos (by omega)]
+    · rename_i he
+      have hmin : min (st.comps.length - 1) (i + 1) = i + 1 := by omega
+      rw [(goTo_spec hb hcs _ (by intro j hj; simp at hj; omega)).2.2.2, goToIndex_of_ne hne, hmin]
+      simp only [nxtIdx]
+      rw [if_neg (by omega)]
+
+/-- one `complete_previous()` on a good state with a non-empty menu -/
+theorem prev_spec {s : St} (hb : BufOK cfg env s) {st : CState} (hcs : s.cs = some st)
+    (hne : st.comps ≠ []) :
+    BufOK cfg env (completePrevious cfg s 1 false).1 ∧
+    (completePrevious cfg s 1 false).1.cs = some { st with index := prvIdx st.comps.length st.index } := by
+  have hn : 0 < st.comps.length := List.length_pos_iff.mpr hne
+  have hst := hb.cs_ok st hcs
+  refine ⟨(completePrevious_nav hb 1 false).buf, ?_⟩
+  unfold completePrevious
+  rw [hcs]
+  dsimp only
+  cases hi : st.index with
+  | none =>
+    dsimp only
+    rw [(goTo_spec hb hcs _ (by intro j hj; simp at hj; omega)).2.2.2, goToIndex_of_ne hne]
+    rfl
+  | some i =>
+    have hlt := index_lt_of_newDoc hst.text_eq hi
+    dsimp only
+    split
+    · rename_i he
+      simp only [Bool.false_eq_true, if_false]
+      rw [(goTo_spec hb hcs none (by intro j hj; cases hj)).2.2.2, goToIndex_of_ne hne]
+      simp only [prvIdx]
+      rw [if_pos he]
+    · rename_i he
+      rw [(goTo_spec hb hcs _ (by intro j hj; simp at hj; omega)).2.2.2, goToIndex_of_ne hne]
+      simp only [prvIdx]
+      rw [if_neg he]
+
+def nextN (cfg : Config) (s : St) : Nat → St
+  | 0 => s
+  | k + 1 => (completeNext cfg (nextN cfg s k) 1 false).1
+
+def prevN (cfg : Config) (s : St) : Nat → St
+  | 0 => s
+  | k + 1 => (completePrevious cfg (prevN cfg s k) 1 false).1
+
+theorem nextN_spec {s : St} (hb : BufOK cfg env s) {st : CState} (hcs : s.cs = some st)
+    (hi : st.index = none) (hne : st.comps ≠ []) (k : Nat) (hk : k ≤ st.comps.length) :
+    BufOK cfg env (nextN cfg s k) ∧
+    (nextN cfg s k).cs = some { st with index := if k = 0 then none else some (k - 1) } := by
+  induction k with
+  | zero => exact ⟨hb, by simp [nextN, hcs, ← hi]⟩
+  | succ k ih =>
+    obtain ⟨hbk, hck⟩ := ih (by omega)
+    have := next_spec hbk hck (by simpa using hne)
+    refine ⟨this.1, ?_⟩
+    show (completeNext cfg (nextN cfg s k) 1 false).1.cs = _
+    rw [this.2]
+    cases k with
+    | zero => simp [nxtIdx]
+    | succ j =>
+      simp only [Nat.add_one_ne_zero, if_false, Nat.add_sub_cancel, nxtIdx]
+      rw [if_neg (by omega)]
+
+/-- **cycle_visits_all**: from a freshly opened menu with `n` completions, the `k+1`-th
+    `complete_next()` selects completion `k` (for every `k < n`), and the text is the original
+    with exactly that completion applied. -/
+theorem cycle_visits_all {s : St} (hb : BufOK cfg env s) {st : CState} (hcs : s.cs = some st)
+    (hi : st.index = none) (k : Nat) (hk : k < st.comps.length) :
+    (nextN cfg s (k + 1)).cs = some { st with index := some k } ∧
+    ∃ c, st.comps[k]? = some c ∧
+      (⟨(nextN cfg s (k + 1)).text, (nextN cfg s (k + 1)).cur⟩ : Doc) = applyCompl st.orig c := by
+  have hne : st.comps ≠ [] := by intro e; rw [e] at hk; simp at hk
+  obtain ⟨hbk, hck⟩ := nextN_spec hb hcs hi hne (k + 1) (by omega)
+  simp only [Nat.add_one_ne_zero, if_false, Nat.add_sub_cancel] at hck
+  refine ⟨hck, ?_⟩
+  have := (hbk.cs_ok _ hck).text_eq
+  simp only [CState.newDoc] at this
+  split at this
+  · rename_i c hc
+    exact ⟨c, hc, by simpa [St.doc] using this.symm⟩
+  · cases this
+
+/-- **cycle_wraps**: one more `complete_next()` after the last completion deselects, and the
+    buffer shows the original text and cursor again. -/
+theorem cycle_wraps {s : St} (hb : BufOK cfg env s) {st : CState} (hcs : s.cs = some st)
+    (hi : st.index = none) (hne : st.comps ≠ []) :
+    (nextN cfg s (st.comps.length + 1)).cs = some st ∧
+    (nextN cfg s (st.comps.length + 1)).text = st.orig.text ∧
+    (nextN cfg s (st.comps.length + 1)).cur = st.orig.cur := by
+  have hn : 0 < st.comps.length := List.length_pos_iff.mpr hne
+  obtain ⟨hbk, hck⟩ := nextN_spec hb hcs hi hne st.comps.length (Nat.le_refl _)
+  rw [if_neg (by omega)] at hck
+  have := next_spec hbk hck (by simpa using hne)
+  have hcs' : (nextN cfg s (st.comps.length + 1)).cs = some st := by
+    show (completeNext cfg (nextN cfg s st.comps.length) 1 false).1.cs = _
+    rw [this.2]
+    simp only [nxtIdx]
+    rw [if_pos (by omega)]
+    simp [← hi]
+  refine ⟨hcs', ?_⟩
+  have hb' : BufOK cfg env (nextN cfg s (st.comps.length + 1)) := this.1
+  have := (hb'.cs_ok st hcs').text_eq
+  simp only [CState.newDoc, hi] at this
+  simp [St.doc] at this
+  rw [this]; exact ⟨rfl, rfl⟩
+
+theorem prevN_spec {s : St} (hb : BufOK cfg env s) {st : CState} (hcs : s.cs = some st)
+    (hi : st.index = none) (hne : st.comps ≠ []) (k : Nat) (hk : k ≤ st.comps.length) :
+    BufOK cfg env (prevN cfg s k) ∧
+    (prevN cfg s k).cs = some { st with index := if k = 0 then none else some (st.comps.length - k) } := by
+  induction k with
+  | zero => exact ⟨hb, by simp [prevN, hcs, ← hi]⟩
+  | succ k ih =>
+    obtain ⟨hbk, hck⟩ := ih (by omega)
+    have := prev_spec hbk hck (by simpa using hne)
+    refine ⟨this.1, ?_⟩
+    show (completePrevious cfg (prevN cfg s k) 1 false).1.cs = _
+    rw [this.2]
+    cases k with
+    | zero => simp [prvIdx]
+    | succ j =>
+      simp only [Nat.add_one_ne_zero, if_false, prvIdx]
+      rw [if_neg (by omega)]
+      congr 3
+
+/-- **cycle_backward**: `complete_previous()` visits the completions in reverse order
+    (`n-1, n-2, …, 0`) and then wraps to the original text. -/
+theorem cycle_backward {s : St} (hb : BufOK cfg env s) {st : CState} (hcs : s.cs = some st)
+    (hi : st.index = none) (hne : st.comps ≠ []) :
+    (∀ k, k < st.comps.length →
+      (prevN cfg s (k + 1)).cs = some { st with index := some (st.comps.length - 1 - k) }) ∧
+    (prevN cfg s (st.comps.length + 1)).cs = some st ∧
+    (prevN cfg s (st.comps.length + 1)).text = st.orig.text ∧
+    (prevN cfg s (st.comps.length + 1)).cur = st.orig.cur := by
+  have hn : 0 < st.comps.length := List.length_pos_iff.mpr hne
+  constructor
+  · intro k hk
+    have := (prevN_spec hb hcs hi hne (k + 1) (by omega)).2
+    rw [this]; simp; omega
+  · obtain ⟨hbk, hck⟩ := prevN_spec hb hcs hi hne st.comps.length (Nat.le_refl _)
+    rw [if_neg (by omega)] at hck
+    have := prev_spec hbk hck (by simpa using hne)
+    have hcs' : (prevN cfg s (st.comps.length + 1)).cs = some st := by
+      show (completePrevious cfg (prevN cfg s st.comps.length) 1 false).1.cs = _
+      rw [this.2]
+      simp only [prvIdx]
+      rw [if_pos (by omega)]
+      simp [← hi]
+    refine ⟨hcs', ?_⟩
+    have hb' : BufOK cfg env (prevN cfg s (st.comps.length + 1)) := this.1
+    have := (hb'.cs_ok st hcs').text_eq
+    simp only [CState.newDoc, hi] at this
+    simp [St.doc] at this
+    rw [this]; exact ⟨rfl, rfl⟩
+
+/-- **cancel_restores**: `cancel_completion()` never raises, closes the menu and restores the
+    original text and cursor, whatever was selected. -/
+theorem cancel_restores {s : St} (hb : BufOK cfg env s) {st : CState} (hcs : s.cs = some st) :
+    (cancelCompletion cfg s).2 = false ∧
+    (cancelCompletion cfg s).1.cs = none ∧
+    (cancelCompletion cfg s).1.text = st.orig.text ∧
+    (cancelCompletion cfg s).1.cur = st.orig.cur := by
+  have r := goTo_spec hb hcs none (by intro j hj; cases hj)
+  have hnd : (st.goToIndex none).newDoc = some st.orig := by
+    unfold CState.goToIndex
+    split
+    · rename_i he
+      have hidx : st.index = none := by
+        cases hi : st.index with
+        | none => rfl
+        | some i =>
+          have := index_lt_of_newDoc (hb.cs_ok st hcs).text_eq hi
+          have he : st.comps = [] := by simpa using he
+          rw [he] at this; simp at this
+      simp [CState.newDoc, hidx]
+    · rfl
+  have ht := (r.2.1.cs_ok _ r.2.2.2).text_eq
+  rw [hnd] at ht
+  simp only [Option.some.injEq] at ht
+  unfold cancelCompletion
+  rw [hcs]
+  simp only [r.1]
+  refine ⟨rfl, rfl, ?_, ?_⟩
+  · show (goToCompletion cfg s none).1.text = _
+    rw [ht]; rfl
+  · show (goToCompletion cfg s none).1.cur = _
+    rw [ht]; rfl
+
+/-- `cancel_restores` for every reachable state -/
+theorem cancel_restores_reachable (hfix : cfg.fixD1 = true) {s : St} (h : Reachable cfg env s)
+    {st : CState} (hcs : s.cs = some st) :
+    (step cfg env s .cancel).2 = false ∧ (step cfg env s .cancel).1.cs = none ∧
+    (step cfg env s .cancel).1.text = st.orig.text ∧ (step cfg env s .cancel).1.cur = st.orig.cur :=
+  cancel_restores (reachable_inv hfix h).buf hcs
+
+
+/-! ### the mechanisms, step by step: a stale result is dropped, not published -/
+
+/-- A completer stream delivers a result (or ends) after the buffer's state object was
+    replaced or discarded (`proceed()` is false): nothing the user sees changes, except that
+    the coroutine may restart for the *current* document with a fresh, empty menu. -/
+theorem stale_completion_not_published (s : St) (m : Mode) (doc : Doc) (i tok : Nat)
+    (hstale : proceed s tok = false) :
+    let r := compResume cfg env s m doc i tok
+    r.1.text = s.text ∧ r.1.cur = s.cur ∧ r.1.vs = s.vs ∧ r.1.verr = s.verr ∧ r.1.sugg = s.sugg ∧
+    (r.1.cs = s.cs ∨ (s.cs = none ∧ r.1.cs = some ⟨s.doc, [], none, s.nextTok⟩ ∧
+                      r.2 = some (.cLoad m s.doc 0 s.nextTok))) := by
+  have happ : ∀ c, appendCompl s tok c = s := by
+    intro c
+    unfold appendCompl
+    unfold proceed at hstale
+    split
+    · rename_i st hcs
+      rw [hcs] at hstale
+      simp only at hstale
+      rw [if_neg (by simpa using hstale)]
+    · rfl
+  have hdrop : dropNoop cfg s doc tok = s := by
+    unfold dropNoop
+    unfold proceed at hstale
+    split
+    · rename_i st hcs
+      rw [hcs] at hstale
+      simp only at hstale
+      simp [hstale]
+    · rfl
+  have hpost : compPost cfg s m doc tok = compElse s m doc := by
+    unfold compPost
+    rw [hdrop]
+    unfold compDispatch
+    unfold proceed at hstale
+    split
+    · rename_i st hcs
+      rw [hcs] at hstale
+      simp only at hstale
+      simp [hstale]
+    · rfl
+  have helse : let r := compElse s m doc
+      r.1.text = s.text ∧ r.1.cur = s.cur ∧ r.1.vs = s.vs ∧ r.1.verr = s.verr ∧ r.1.sugg = s.sugg ∧
+      (r.1.cs = s.cs ∨ (s.cs = none ∧ r.1.cs = some ⟨s.doc, [], none, s.nextTok⟩ ∧
+                        r.2 = some (.cLoad m s.doc 0 s.nextTok))) := by
+    unfold compElse
+    split
+    · exact ⟨rfl, rfl, rfl, rfl, rfl, Or.inl rfl⟩
+    · split
+      · unfold compBegin
+        split
+        · exact ⟨rfl, rfl, rfl, rfl, rfl, Or.inl rfl⟩
+        · rename_i hn
+          exact ⟨rfl, rfl, rfl, rfl, rfl, Or.inr ⟨by simpa using hn, rfl, rfl⟩⟩
+      · exact ⟨rfl, rfl, rfl, rfl, rfl, Or.inl rfl⟩
+  unfold compResume
+  split
+  · rename_i c hc
+    simp only [happ c, hstale, Bool.not_false, if_true, hpost]
+    exact helse
+  · rw [hpost]; exact helse
+
+/-- The validator answers for a document that is no longer the buffer's: no verdict is
+    published (the coroutine validates the current document instead, or stops if a verdict
+    exists already). -/
+theorem stale_verdict_not_published (s : St) (doc : Doc) (hstale : s.doc ≠ doc) :
+    (valResume env s doc).1.vs = s.vs ∧ (valResume env s doc).1.verr = s.verr ∧
+    (valResume env s doc).1.text = s.text ∧
+    ((valResume env s doc).2 = none ∨ (valResume env s doc).2 = some (.vWait s.doc)) := by
+  unfold valResume
+  rw [if_pos hstale]
+  unfold valLoop
+  split
+  · exact ⟨rfl, rfl, rfl, Or.inl rfl⟩
+  · exact ⟨rfl, rfl, rfl, Or.inr rfl⟩
+
+/-- A verdict is published only by a validator that was called with the buffer's current
+    document, and it is that document's verdict. -/
+theorem verdict_published_for_current (s : St) (doc : Doc)
+    (hpub : (valResume env s doc).1.vs ≠ s.vs) :
+    s.doc = doc ∧ (valResume env s doc).1.verr = env.valid s.doc ∧
+    ((valResume env s doc).1.vs = .invalid ↔ (env.valid s.doc).isSome) := by
+  by_cases hd : s.doc = doc
+  · subst hd
+    refine ⟨rfl, ?_, ?_⟩
+    · unfold valResume; simp only [ne_eq, not_true_eq_false, if_false]
+      split <;> simp_all
+    · unfold valResume; simp only [ne_eq, not_true_eq_false, if_false]
+      split <;> simp_all
+  · exact absurd (stale_verdict_not_published (env := env) s doc hd).1 hpub
+
+/-- The suggester answers for a document that is no longer the buffer's: nothing is
+    published; the coroutine retries with the current document. -/
+theorem stale_suggestion_not_published (s : St) (doc : Doc) (hstale : s.doc ≠ doc) :
+    (sugResume env s doc).1.sugg = s.sugg ∧ (sugResume env s doc).1.text = s.text ∧
+    ((sugResume env s doc).2 = none ∨ (sugResume env s doc).2 = some (.sWait s.doc)) := by
+  unfold sugResume
+  rw [if_neg hstale]
+  unfold sugBegin
+  split
+  · exact ⟨rfl, rfl, Or.inl rfl⟩
+  · exact ⟨rfl, rfl, Or.inr rfl⟩
+
+/-- every change of text clears menu, verdict and suggestion in the same atomic step -/
+theorem text_change_clears (s : St) (t : Text) (c : Nat) (ht : t ≠ s.text) :
+    (setDocument cfg s t c).cs = none ∧ (setDocument cfg s t c).vs = .unknown ∧
+    (setDocument cfg s t c).verr = none ∧ (setDocument cfg s t c).sugg = none := by
+  rw [setDocument_cs, setDocument_vs, setDocument_verr, setDocument_sugg]
+  simp [ht]
+
+/-- a cursor move closes the menu -/
+theorem cursor_change_clears (s : St) (t : Text) (c : Nat) (hc : c ≠ s.cur) :
+    (setDocument cfg s t c).cs = none := by
+  rw [setDocument_cs]; simp [hc]
+
+
+/-! ### the unrepaired `async_completer` (before commit 279c220) violates the property -/
+
+/-- the code as it was: the single no-op completion is dropped even while it is selected -/
+def cfgUnfixed : Config := ⟨false, false, false, false, 10000, false⟩
+def cfgFixed : Config := ⟨false, false, false, false, 10000, true⟩
+
+/-- a completer whose only completion replaces the last three characters by themselves -/
+def envNoop : Env := ⟨mkComp [⟨3, true, []⟩], fun _ => none, fun _ => none⟩
+
+/-- start_completion(); the task starts; the completion arrives; the user selects it
+    (complete_next) while the stream is still open; the stream ends -/
+def witnessD1 : List Act :=
+  [.startCompletion .plain, .start 0, .resume 0, .next 1 false, .resume 0]
+
+/-- **Counterexample (defect D1, fixed in /repo by 279c220).**  With the unrepaired
+    coroutine the schedule `witnessD1` reaches a state whose menu has no completions but
+    `complete_index = 0`; `cancel_completion()` then raises instead of restoring the text. -/
+theorem unfixed_dangles :
+    (run cfgUnfixed envNoop (init ⟨['f', 'o', 'o'], 3⟩) witnessD1).cs =
+      some ⟨⟨['f', 'o', 'o'], 3⟩, [], some 0, 0⟩ ∧
+    (step cfgUnfixed envNoop (run cfgUnfixed envNoop (init ⟨['f', 'o', 'o'], 3⟩) witnessD1) .cancel).2 = true := by
+  decide
+
+/-- the same schedule on the repaired coroutine keeps the selected completion -/
+theorem fixed_keeps_selected :
+    (run cfgFixed envNoop (init ⟨['f', 'o', 'o'], 3⟩) witnessD1).cs =
+      some ⟨⟨['f', 'o', 'o'], 3⟩, [⟨['f', 'o', 'o'], -3⟩], some 0, 0⟩ := by
+  decide
+
+
+/-! ### non-vacuity: concrete reachable states exercising every hypothesis above -/
+
+def cfgAll : Config := ⟨true, true, true, true, 10000, true⟩
+
+/-- completer: last char + "xy", last char + "xz" (common part "x"); validator: invalid iff
+    (len + cursor) % 3 = 0; suggester: none iff len is even, else last two characters + "!" -/
+def envDemo : Env :=
+  ⟨mkComp [⟨1, true, ['x', 'y']⟩, ⟨1, true, ['x', 'z']⟩], mkValid 1 3 0, mkSugg 0 2 0 ['!']⟩
+
+def docAb : Doc := ⟨['a', 'b'], 2⟩
+
+/-- Tab-less completion with `select_first`, stream consumed to the end -/
+def actsMenu : List Act := [.startCompletion .first, .start 0, .resume 0, .resume 0, .resume 0]
+
+example : Reachable cfgAll envDemo (run cfgAll envDemo (init docAb) actsMenu) :=
+  ⟨docAb, actsMenu, by unfold Doc.WF; decide, rfl⟩
+
+/-- `menu_text_consistent` / `menu_selected` / `index_valid` / `completions_for_orig` are not
+    vacuous: a reachable state with a menu, a selected completion and changed text -/
+example :
+    (run cfgAll envDemo (init docAb) actsMenu).cs =
+      some ⟨docAb, [⟨['b', 'x', 'y'], -1⟩, ⟨['b', 'x', 'z'], -1⟩], some 0, 0⟩ ∧
+    (run cfgAll envDemo (init docAb) actsMenu).text = ['a', 'b', 'x', 'y'] ∧
+    (run cfgAll envDemo (init docAb) actsMenu).cur = 4 := by decide
+
+/-- `loading_link`: a completer still loading, one completion delivered, menu still its own -/
+example :
+    (run cfgAll envDemo (init docAb) [.startCompletion .plain, .start 0, .resume 0]).tasks =
+      [.cLoad .plain docAb 1 0] ∧
+    ((run cfgAll envDemo (init docAb) [.startCompletion .plain, .start 0, .resume 0]).cs.map (·.comps)) =
+      some [⟨['b', 'x', 'y'], -1⟩] := by decide
+
+/-- staleness avoided: the user types while the stream is loading; the next result is not
+    published for the new text — the coroutine retries for the new document -/
+example :
+    (run cfgAll envDemo (init docAb)
+      [.startCompletion .plain, .start 0, .resume 0, .setText ['a', 'b', 'c'], .setCursor 3, .resume 0]).cs =
+      some ⟨⟨['a', 'b', 'c'], 3⟩, [], none, 1⟩ := by decide
+
+/-- the derived case of `completions_for_orig`: `insert_common_part` inserts "x" and
+    publishes the shortened completions for the *new* document -/
+example :
+    (run cfgAll envDemo (init docAb) [.tab, .start 0, .resume 0, .resume 0, .resume 0]).cs =
+      some ⟨⟨['a', 'b', 'x'], 3⟩, [⟨['y'], 0⟩, ⟨['z'], 0⟩], none, 1⟩ := by decide
+
+/-- `verdict_fresh` (invalid case) and `suggestion_fresh` are not vacuous: after typing "a"
+    the validator and the suggester run to completion -/
+example :
+    (run cfgAll envDemo (init docAb) [.insert ['a'], .start 0, .resume 0]).vs = .invalid ∧
+    (run cfgAll envDemo (init docAb) [.insert ['a'], .start 0, .resume 0]).verr = some ['E', 'a'] := by decide
+example :
+    (run cfgAll envDemo (init docAb) [.insert ['a'], .start 2, .resume 0]).sugg = some ['b', 'a', '!'] := by
+  decide
+/-- valid case -/
+example :
+    (run cfgAll envDemo (init docAb) [.insert ['a'], .setCursor 2, .start 0, .resume 0]).vs = .valid := by
+  decide
+/-- a verdict that would be stale is not published: the text changes while the validator
+    runs, the coroutine re-validates the new document instead -/
+example :
+    (run cfgAll envDemo (init docAb) [.insert ['a'], .start 0, .insert ['a'], .resume 0]).vs = .unknown ∧
+    (run cfgAll envDemo (init docAb) [.insert ['a'], .start 0, .insert ['a'], .resume 0]).tasks.head? =
+      some (.vWait ⟨['a', 'b', 'a', 'a'], 4⟩) := by decide
+
+/-- `one_at_a_time`: a second completer started while the first is loading returns at once -/
+example :
+    cntC (run cfgAll envDemo (init docAb)
+      [.startCompletion .plain, .startCompletion .first, .start 0, .start 0]).tasks = 1 ∧
+    (run cfgAll envDemo (init docAb)
+      [.startCompletion .plain, .startCompletion .first, .start 0, .start 0]).runC = true := by decide
+
+/-- `cycle_*` / `cancel_restores`: their hypotheses hold in the reachable state with a freshly
+    opened two-entry menu -/
+example :
+    (run cfgAll envDemo (init docAb) [.startCompletion .plain, .start 0, .resume 0, .resume 0, .resume 0]).cs =
+      some ⟨docAb, [⟨['b', 'x', 'y'], -1⟩, ⟨['b', 'x', 'z'], -1⟩], none, 0⟩ := by decide
+example :
+    (nextN cfgAll (run cfgAll envDemo (init docAb)
+      [.startCompletion .plain, .start 0, .resume 0, .resume 0, .resume 0]) 2).text = ['a', 'b', 'x', 'z'] ∧
+    (nextN cfgAll (run cfgAll envDemo (init docAb)
+      [.startCompletion .plain, .start 0, .resume 0, .resume 0, .resume 0]) 3).text = ['a', 'b'] := by decide
 
 end Ptk.C15
